@@ -2,6 +2,7 @@
 
 import collections
 import gzip
+import os
 import pickle
 
 from hypothesis import strategies as st
@@ -65,6 +66,13 @@ def sort_case(draw, tier, max_records=60, force_all_ref=None):
             rec["tags"] = rec["tags"] + ["zq:Z:" + "k" * draw(st.integers(2000, 9000))]
         if draw(st.integers(0, 6)) == 0:
             rec["strand"] = "-"
+        k_ = draw(st.integers(0, 9))
+        if k_ == 0:
+            rec["name"] += " len=300 mean_q=14.2"  # GraphAligner copies the whole FASTQ header
+        elif k_ == 1:
+            rec["tags"] = rec["tags"] + ["ds:Z::40*ag:51"]  # minigraph >= 0.21
+        elif k_ == 2:
+            rec["tags"] = rec["tags"] + ["xx:i:1", "xx:i:2", "fl:f:-1.5e-3"]
         lines.append(gen_gaf.record_line(rec))
     data_len = sum(len(l) + 1 for l in lines)
     comp = None
@@ -82,6 +90,7 @@ def sort_case(draw, tier, max_records=60, force_all_ref=None):
         "via": draw(st.sampled_from(["api", "api", "cli"])),
         # the pipeline of the documentation: tags come from a real `gaftools order_gfa` run on the same graph
         "tag_with_order_gfa": draw(st.integers(0, 4)) == 0,
+        "crlf": draw(st.integers(0, 9)) == 0,
     }
 
 
@@ -141,9 +150,9 @@ def run_sort(case, d):
     from gaftools.cli.sort import run_sort as rs
 
     core.write_text(d + "/g.gfa", case["gfa"])
-    text = "".join(l + "\n" for l in case["gaf"])
+    text = "".join(l + ("\r\n" if case.get("crlf") else "\n") for l in case["gaf"])
     if not case.get("final_newline", True):
-        text = text[:-1]
+        text = text[:-2] if case.get("crlf") else text[:-1]
     if case.get("bgzf"):
         inp = d + "/in.gaf.gz"
         bgzf.write_bgzf(inp, text.encode(), case["bgzf"]["cuts"], case["bgzf"]["empty"])
@@ -153,8 +162,21 @@ def run_sort(case, d):
     out = d + ("/out.gaf.gz" if case["bgzip_out"] else "/out.gaf")
     ind = d + "/custom.idx" if case.get("outind") else None
     if case.get("via", "api") == "cli":
-        argv = ["sort", inp, d + "/g.gfa", "--outgaf", out] + (["--outind", ind] if ind else []) + (["--bgzip"] if case["bgzip_out"] else [])
-        res = core.cli(argv)
+        if ind and len(case["gaf"]) % 2 == 0:
+            # paths relative to the working directory, the sorted GAF in a sub-directory, the index next to the input
+            os.makedirs(d + "/sorted", exist_ok=True)
+            out = d + "/sorted/" + os.path.basename(out)
+            rel = lambda p_: os.path.relpath(p_, d)
+            argv = ["sort", rel(inp), "g.gfa", "--outgaf", rel(out), "--outind", rel(ind)] + (["--bgzip"] if case["bgzip_out"] else [])
+            cwd = os.getcwd()
+            os.chdir(d)
+            try:
+                res = core.cli(argv)
+            finally:
+                os.chdir(cwd)
+        else:
+            argv = ["sort", inp, d + "/g.gfa", "--outgaf", out] + (["--outind", ind] if ind else []) + (["--bgzip"] if case["bgzip_out"] else [])
+            res = core.cli(argv)
     else:
         res = core.call(rs, d + "/g.gfa", inp, outgaf=out, outind=ind, bgzip=case["bgzip_out"])
     lines = None
@@ -179,6 +201,10 @@ def classes_of(case, nodes, exp):
         cl.append("larger_than_64KiB")
     if not case.get("final_newline", True):
         cl.append("no_final_newline")
+    if case.get("crlf"):
+        cl.append("crlf_line_endings")
+    if any(" " in l.split("\t")[0] or "ds:Z:" in l or "xx:i:2" in l for l in case["gaf"]):
+        cl.append("record_a_lossy_parser_would_rewrite")
     if any(t[0][2] == "iv:i:1" for t in exp):
         cl.append("iv=1")
     if any(t[0][1] == "sn:Z:unknown" for t in exp):
